@@ -43,7 +43,7 @@ VALUES: dict[str, list[str]] = {
     'abr': ['0', '1'], 'base': ['0', '1'], 'mup': ['-1', '4', '30'], 'timeline': ['0', '1'], 'patch': ['1'], 'acodec': ['mp4a', 'ec-3'],
     'tcodec': ['stpp'], 'time': ['xsd', 'iso', 'direct', 'head', 'http-ntp'], 'drift': ['10'], 'update': ['3'],
     'ping__count': ['0', '5'], 'ping__duration': ['100'], 'ping__inband': ['0', '1'], 'ping__interval': ['500'], 'ping__start': ['250'],
-    'ping__timescale': ['100', '90000'], 'ping__value': ['0', 'a&b', 'x=y', 'p q', 'é'], 'ping__version': ['0', '1'],
+    'ping__timescale': ['100', '90000'], 'ping__value': ['0', 'a&b', 'x=y', 'p q', 'é', ''], 'ping__version': ['0', '1'],
     'scte35__count': ['4'], 'scte35__duration': ['300'], 'scte35__inband': ['0', '1'], 'scte35__interval': ['800'], 'scte35__start': ['100'],
     'scte35__timescale': ['100'], 'scte35__value': ['', 'v&w'], 'scte35__version': ['0', '1'], 'scte35__program_id': ['1620', '7'],
 }
